@@ -460,6 +460,9 @@ def check_bookkeeping(ctx, rep):
                witness="; ".join(sorted(set(probs))) or None, nontrivial=True,
                key="%s/%s" % (mth.name, "ok" if not probs else "+".join(sorted(set(p[:30] for p in probs)))))
     rep.floor("V6", 3, "add_bond, add_ring_bond, update_bond_order")
+    # ... and nothing else writes the counts except growth with the atom list and the rounding of an entry
+    from rules.shared import check_bond_count_writers
+    check_bond_count_writers(ctx, rep, "V6")
 
 
 # ----------------------------------------------------------------------------- V7 capacity
